@@ -1353,6 +1353,117 @@ func genSoup(r *rand.Rand, w *bufio.Writer, id string) {
 	}
 }
 
+// genRetryCorner: RetryLastLoad of a load that consumed the last queued item, with items arriving
+// before / after the retry (the linked-list corner of remoteQueue.retryLast: the re-queued item's
+// next pointer is nil, newer items live on another chain).
+func genRetryCorner(r *rand.Rand, w *bufio.Writer, id string) {
+	g := &genCtx{r: r, w: w, d: NewDrv()}
+	defer g.d.Close()
+	fmt.Fprintf(w, "case %s mode=corner\n", id)
+	next := 0 // next cid to ingest
+	path := func(k int) string {
+		if k == 0 {
+			return "-"
+		}
+		return strings.TrimSuffix(strings.Repeat("0/", k), "/")
+	}
+	ing := func(m int) {
+		if m == 0 {
+			return
+		}
+		var items []item
+		var blocks [][2]int
+		for j := 0; j < m; j++ {
+			items = append(items, item{next, 'p'})
+			if r.Intn(4) != 0 {
+				blocks = append(blocks, [2]int{next, next})
+			}
+			next++
+		}
+		g.emit("ingest", fmtItems(items), fmtBlocks(blocks))
+		g.d.Ingest(items, blocks)
+		g.d.Wake()
+	}
+	if r.Intn(3) == 0 {
+		g.emit("put", "0", "1")
+		g.d.Put(0)
+		g.d.Put(1)
+	}
+	g.emit("online", "1")
+	g.d.RL.SetRemoteOnline(true)
+	ld := 0
+	load := func() bool {
+		if g.d.pend != nil {
+			return false
+		}
+		op := []string{"load", strconv.Itoa(ld), path(ld)}
+		g.emit(op...)
+		g.d.Load(op, ld, op[2])
+		ld++
+		return true
+	}
+	rounds := 1 + r.Intn(3)
+	for k := 0; k < rounds; k++ {
+		n := 1 + r.Intn(3)
+		ing(n)
+		for j := 0; j < n-r.Intn(2); j++ {
+			load()
+		}
+		ing(r.Intn(3))
+		if g.d.pend == nil {
+			if r.Intn(5) == 0 {
+				g.emit("online", "0")
+				g.d.RL.SetRemoteOnline(false)
+				g.emit("online", "1")
+				g.d.RL.SetRemoteOnline(true)
+			}
+			g.emit("retry")
+			g.d.Retry([]string{"retry"})
+		}
+		ing(r.Intn(3))
+		for j := r.Intn(3); j > 0; j-- {
+			load()
+		}
+	}
+	g.emit("online", "0")
+	g.d.RL.SetRemoteOnline(false)
+	g.d.Wake()
+	for j := r.Intn(3); j > 0; j-- {
+		load()
+	}
+}
+
+// genRetryCorner2: a retried load that sits below an unfollowed remote path (it does not consume a
+// queue item, yet RetryLastLoad re-queues the last consumed one).
+func genRetryCorner2(r *rand.Rand, w *bufio.Writer, id string) {
+	fmt.Fprintf(w, "case %s mode=corner\n", id)
+	e := func(s string) { fmt.Fprintln(w, s) }
+	if r.Intn(4) != 0 {
+		e("put 5")
+	}
+	e("online 1")
+	e("ingest 9p,1m 9")
+	e("load 9 -")
+	e("load 1 0")
+	if r.Intn(2) == 0 {
+		e("ingest 7p 7")
+	}
+	if r.Intn(4) == 0 {
+		e("online 0")
+	}
+	e("load 5 0/0")
+	e("retry")
+	if r.Intn(3) != 0 {
+		e("ingest 8p,6p 8")
+	}
+	e("load 1 1")
+	e([]string{"load 8 2", "load 7 2", "load 6 2"}[r.Intn(3)])
+	e("online 0")
+	if r.Intn(2) == 0 {
+		e("retry")
+	}
+}
+
 func Gen(seed int64, n int, tier string, w *bufio.Writer) {
 	runtime.GOMAXPROCS(1)
 	r := rand.New(rand.NewSource(seed))
@@ -1362,6 +1473,12 @@ func Gen(seed int64, n int, tier string, w *bufio.Writer) {
 			genTraversal(r, w, fmt.Sprintf("h%d", i), false, 7)
 		case 3, 4, 5, 6:
 			genTraversal(r, w, fmt.Sprintf("a%d", i), true, 7)
+		case 7:
+			if i%20 == 7 {
+				genRetryCorner2(r, w, fmt.Sprintf("d%d", i))
+			} else {
+				genRetryCorner(r, w, fmt.Sprintf("c%d", i))
+			}
 		default:
 			genSoup(r, w, fmt.Sprintf("s%d", i))
 		}
